@@ -286,6 +286,9 @@ func judgeEnforce(run *vlib.Run, o *vlib.Oracles, kc *kernelCase, st *kernelStat
 		var sc *vlib.StraceCall
 		for i := range res.Strace {
 			if res.Strace[i].Name == "seccomp" && len(res.Strace[i].Args) > 0 && res.Strace[i].Args[0] == 1 {
+				if kc.cc.SiblingLoads > 0 && res.Strace[i].Tid != int(jsonU64(loaded["tid"])) {
+					continue // a sibling thread's load
+				}
 				sc = &res.Strace[i]
 				break
 			}
@@ -553,6 +556,12 @@ func c08() {
 			kc.cc.StraceInject = vlib.UnamePoke(vlib.FakeKernelReleases[(i/11)%len(vlib.FakeKernelReleases)])
 			kc.strace = true
 			run.Count("children_seeing_a_faked_kernel_release", 1)
+		}
+		if i%9 == 7 && !kc.cc.KillThreadProbe && !kc.cc.PreloadOnOtherThread && kc.cc.StraceInject == nil {
+			// other threads load another policy while the judged load is between its steps
+			kc.cc.Flags &^= 1
+			kc.cc.SiblingLoads = 1 + (i/9)%3
+			run.Count("children_with_sibling_threads_loading_concurrently", 1)
 		}
 		kc.cc.Env = vlib.RuntimeKnobs[(i/3)%len(vlib.RuntimeKnobs)]
 		if i%5 == 1 {
